@@ -17,6 +17,7 @@ import NR.Seq
 import NR.StopGen
 import NR.Links
 import NR.RangeCheck
+import NR.Sched
 namespace NR.Driver
 open NR
 
@@ -38,7 +39,14 @@ structure CollSt where
   st    : Coll.CState := {}
 deriving Inhabited
 
+structure EngSt where
+  st   : Option (Engine.MState Sched.Node Sched.CV Spec.Terms) := none
+  live : List Nat := []        -- resources whose cumulative value the code keeps (capacity constraint registered)
+  dist : Bool := false         -- the code keeps a cumulative distance (distance limit registered)
+deriving Inhabited
+
 structure State where
+  eng  : EngSt := {}
   rc   : List RangeCheck.Iv := []
   coll : CollSt := {}
   td   : TdState := {}
@@ -361,8 +369,92 @@ def stepRc (cur : List RangeCheck.Iv) (ws : List String) : List RangeCheck.Iv ×
     | none => (cur, "bad-op")
   | _ => (cur, "bad-op")
 
+/-- Build the engine state of the given routes by a full propagation of every vehicle; `none` if an exact check fails. -/
+def engBuild (inst : Spec.Inst) (routes : List (List Nat)) : Option (Engine.MState Sched.Node Sched.CV Spec.Terms) :=
+  let m := Sched.model inst
+  let rs := (List.range routes.length).map (fun v => Sched.nodes v (routes.getD v []))
+  let start : Engine.MState Sched.Node Sched.CV Spec.Terms := { routes := rs.map (fun _ => []), vals := fun _ => default, score := default }
+  let (st, ok) := (List.range rs.length).foldl (fun (acc : Engine.MState Sched.Node Sched.CV Spec.Terms × Bool) v =>
+      let (s', r) := Engine.applyOp m acc.1 ⟨v, 0, rs.getD v []⟩
+      (s', acc.2 && r)) (start, true)
+  if ok then some st else none
+
+/-- One node of a vehicle's digest `arrival:start:end:cumTravel:pos:levels:dist` of the code against the model's value. -/
+def engNodeSame (es : EngSt) (hasLimit : Bool) (c : Sched.CV) (d : String) : Bool :=
+  match d.splitOn ":" with
+  | [a, s, f, ct, pos, lv, di] =>
+    match parseRat? a, parseRat? s, parseRat? f, parseRat? ct, pos.toNat? with
+    | some a, some s, some f, some ct, some pos =>
+      SpecDriver.near a c.t.arrival && SpecDriver.near s c.t.start && SpecDriver.near f c.t.finish &&
+      SpecDriver.near ct c.t.cumTravel && pos == c.pos &&
+      (match parseRats? (if lv = "-" then [] else lv.splitOn ";") with
+       | some l => l == es.live.map (fun r => c.lv.getD r 0)
+       | none => false) &&
+      -- the composed distance expression is 0 for vehicles without an own limit
+      (if es.dist then (match parseRat? di with
+          | some x => if hasLimit then SpecDriver.near x c.dist else x == 0
+          | none => false) else di = "-")
+    | _, _, _, _, _ => false
+  | _ => false
+
+/-- `eng set R=<routes> live=<csv|-> dist=<0|1>`: the state before an operation, built by full propagation.
+`eng op <v> <k> <new stops csv|-> <result 0|1> <digest of vehicle v after the operation>`: the operation replayed by the
+concrete engine (NR.Sched over NR.Engine.applyOp: propagate with early exit, roll back on a violation): its result and
+every cached value of the vehicle's stops must be the code's. -/
+def stepEng (inst? : Option Spec.Inst) (es : EngSt) (ws : List String) : EngSt × String :=
+  match inst?, ws with
+  | some inst, ["set", r, live, dist] =>
+    match SpecDriver.field "R=" [r], SpecDriver.field "live=" [live], SpecDriver.field "dist=" [dist] with
+    | some r, some live, some dist =>
+      match allSome ((r.splitOn "|").map SpecDriver.parseRoute), parseNatsCsv live with
+      | some routes, some live =>
+        match engBuild inst routes with
+        | some st => ({ st := some st, live := live, dist := dist = "1" }, "eng set ok")
+        | none => ({ es with st := none }, "eng set infeasible")
+      | _, _ => (es, "bad-op")
+    | _, _, _ => (es, "bad-op")
+  | some inst, ["op", v, k, nw, res, dig] =>
+    match es.st, v.toNat?, k.toNat?, parseNatsCsv nw with
+    | some st, some v, some k, some nw =>
+      let op : Engine.Op Sched.Node := ⟨v, k, nw.map Sched.Node.stop ++ [Sched.Node.last v]⟩
+      let (st', r) := Engine.applyOp (Sched.model inst) st op
+      let route := st'.routes.getD v []
+      let ds := if dig = "-" then [] else dig.splitOn ","
+      let same := ds.length == route.length &&
+        (List.zip route ds).all (fun (n, d) => engNodeSame es ((inst.vehicles.getD v {}).maxDist.isSome) (st'.vals n) d)
+      ({ es with st := some st' },
+        "eng " ++ (if r then "1" else "0") ++ (if (if r then "1" else "0") = res then "" else " result-differs") ++
+        (if same then " same" else " values-differ"))
+    | none, _, _, _ => (es, "eng no-state")
+    | _, _, _, _ => (es, "bad-op")
+  | none, _ => (es, "eng no-instance")
+  | _, _ => (es, "bad-op")
+
+/-- `hyp <tag> v=<vehicle> R=<route>`: the route an EXECUTABLE move would produce, judged by the specification
+(every clause of C01 and C02 on that vehicle): a verdict here means the estimates admitted a move whose result
+violates a constraint (C09), whether or not the move is ever executed. -/
+def stepHyp (inst? : Option Spec.Inst) (ws : List String) : String :=
+  match inst?, ws with
+  | some inst, [_, v, r] =>
+    match (SpecDriver.field "v=" [v]).bind String.toNat?, (SpecDriver.field "R=" [r]).bind SpecDriver.parseRoute with
+    | some v, some route =>
+      let a := match Spec.staticOK inst v route with
+        | some c => [s!"C09:executable-contradicts-spec:{c}:veh{v}"]
+        | none => []
+      let b := match Spec.temporalOK inst v route with
+        | some c => [s!"C09:executable-contradicts-spec:{c}:veh{v}"]
+        | none => []
+      match a ++ b with
+      | [] => "hyp ok"
+      | l => "hyp " ++ " ".intercalate l
+    | _, _ => "bad-op"
+  | none, _ => "hyp no-instance"
+  | _, _ => "bad-op"
+
 def step (st : State) (line : String) : State × String :=
   match words line with
+  | "hyp" :: ws => (st, stepHyp st.inst ws)
+  | "eng" :: ws => let (e, o) := stepEng st.inst st.eng ws; ({ st with eng := e }, o)
   | "rc" :: ws => let (r, o) := stepRc st.rc ws; ({ st with rc := r }, o)
   | "seq" :: ws => (st, stepSeq ws)
   | "links" :: ws => (st, stepLinks ws)
